@@ -1,3 +1,4 @@
 import Proofs.Scan
 import Proofs.RunLoop
 import Proofs.Metadata
+import Proofs.Assign
